@@ -5,6 +5,7 @@ package main
 // are running), one fresh connection per request and per ingress.
 
 import (
+	"sync"
 	"bufio"
 	"bytes"
 	"context"
@@ -550,7 +551,91 @@ func (x ingRes) show(invoked int) string {
 	return fmt.Sprintf("%s closed=%s inv=%d", out, c, invoked)
 }
 
+// a PreWriteResponse plugin that parks the response to the request whose id is armed
+type parkAnswerPlugin struct {
+	mu      sync.Mutex
+	armed   uint64 // sequence number to park (0: none)
+	entered chan struct{}
+	release chan struct{}
+}
+
+func (p *parkAnswerPlugin) PreWriteResponse(ctx context.Context, req, res *protocol.Message, err error) error {
+	p.mu.Lock()
+	hit := p.armed != 0 && req != nil && req.Seq() == p.armed
+	if hit {
+		p.armed = 0
+	}
+	p.mu.Unlock()
+	if hit {
+		close(p.entered)
+		<-p.release
+	}
+	return nil
+}
+
+// ingOverlap: two gateway requests (A, B) on separate connections overlap: A's answer stands at the pre-write stage while
+// B is served completely; A's answer still carries A's own response metadata and result - what the native protocol
+// gives for A.  Oracle only.  case: overlap|<ingress of B>
+func ingOverlap(o *common.Out, id string, bIng string) {
+	abstract := "overlap|" + bIng
+	o.Begin(id, abstract)
+	o.Count("overlapping-requests-across-ingresses")
+	rg, err := newTCPRig(false, false, false, false)
+	if err != nil {
+		o.Fail(id, "rig", err.Error(), abstract)
+		return
+	}
+	defer rg.stop()
+	pp := &parkAnswerPlugin{entered: make(chan struct{}), release: make(chan struct{})}
+	rg.srv.Plugins.Add(pp)
+	qa := ingReq{ing: "gateway", path: "Arith", method: "Mul", id: 31, a: 3, b: 5, mode: "ok", seq: 7101, meta: map[string]string{"k0": "for-A", "k1": "a b"}}
+	qb := ingReq{ing: bIng, path: "Arith", method: "Mul", id: 33, a: 4, b: 6, mode: "ok", seq: 7102, meta: map[string]string{"k0": "for-B", "k1": "x/y"}}
+	qn := qa
+	qn.ing, qn.seq = "native", 7103
+	ref := rg.do(qn) // what the native protocol answers for A's request
+	rg.drain()
+	pp.mu.Lock()
+	pp.armed = qa.seq
+	pp.mu.Unlock()
+	resA := make(chan ingRes, 1)
+	go func() { resA <- rg.do(qa) }()
+	select {
+	case <-pp.entered:
+	case <-time.After(3 * time.Second):
+		close(pp.release)
+		o.Fail(id, "rig", "A's answer never reached the pre-write stage", abstract)
+		return
+	}
+	rb := rg.do(qb)
+	close(pp.release)
+	var ra ingRes
+	select {
+	case ra = <-resA:
+	case <-time.After(4 * time.Second):
+		o.Fail(id, "gateway-no-answer", "A was never answered", abstract)
+		return
+	}
+	if ra.kind != "result" || ra.c != 15 || ra.id != 31 || ra.resMeta != ref.resMeta {
+		o.Fail(id, "ingress-metadata-differs", fmt.Sprintf("gateway request A overlapped by a %s request B: A got kind=%s c=%d id=%d response metadata %q; natively the same request gives %q",
+			bIng, ra.kind, ra.c, ra.id, ra.resMeta, ref.resMeta), abstract)
+	}
+	if rb.kind != "result" || rb.c != 24 || rb.id != 33 {
+		o.Fail(id, "ingress-result-differs", fmt.Sprintf("request B (%s) served while A's answer was held: kind=%s c=%d id=%d", bIng, rb.kind, rb.c, rb.id), abstract)
+	}
+	rg.drain()
+	o.ImplOnly(id, abstract, true)
+}
+
 func runIngress(prop string, r *common.Rand, tier string, o *common.Out, replay string) {
+	if strings.HasPrefix(replay, "overlap|") {
+		ingOverlap(o, "replay", strings.TrimPrefix(replay, "overlap|"))
+		return
+	}
+	if replay == "" && prop == "C19" {
+		for i, ing := range []string{"gateway", "native", "gateway"} {
+			ingOverlap(o, fmt.Sprintf("ov%d", i), ing)
+		}
+	}
 	rigs := map[[4]bool]*tcpRig{}
 	defer func() {
 		for _, rg := range rigs {
